@@ -14,7 +14,8 @@ EXTENDS NetParamsCases, TraceCommon, FiniteSets
 CaseKeys == CaseSet
 
 KeyOf(ev) == [kind |-> ev.kind, from |-> ev.from, via |-> ev.via, to |-> ev.to,
-              n |-> ev.n, alias |-> ev.alias, z0 |-> ev.z0, net |-> ev.net]
+              n |-> ev.n, alias |-> ev.alias, z0 |-> ev.z0, net |-> ev.net,
+              mag |-> ev.mag]
 
 VARIABLES l, seen
 tvars == <<l, seen>>
@@ -28,6 +29,10 @@ TCase ==
        /\ Explain(KeyOf(ev) \notin seen, <<l, "Case", "dup", "each case once">>)
        /\ Explain(ev.decided >= 1, <<l, "Case", "decided", ">= 1">>)
        /\ Explain(ev.failed = 0, <<l, "Case", "failed", 0>>)
+       (* same input, same output: every call repeated with the floating-  *)
+       (* point exception flags cleared / raised and after a call on a     *)
+       (* singular input gave bit-identical results                        *)
+       /\ Explain(ev.pure = 1, <<l, "Case", "pure", 1>>)
        /\ seen' = seen \cup {KeyOf(ev)}
 
 TNext == l <= Len(TraceLog) /\ l' = l + 1 /\ TCase
